@@ -399,6 +399,37 @@ def section_roundtrip(ctx, tick):
     systematic += [Style(color="default"), Style(bgcolor="default"), Style(color="default", bgcolor="default", link="u")]
     sys_iter = iter(systematic)
 
+    # Consoles of the other colour systems in the same process.  The very Style objects that are about to be encoded
+    # for truecolor are first rendered through (a random subset of) these, so that whatever `Style._make_ansi_codes`
+    # remembers from a previous render (the `_ansi` cache, copied by `copy` / `update_link`) is there when the truecolor
+    # encode happens: the cache is exercised, not assumed transparent.
+    lower = []
+    for cs, legacy in (("standard", False), ("256", False), ("windows", True), ("windows", False), (None, False), ("truecolor", False)):
+        lf = io.StringIO()
+        lower.append((cs, Console(file=lf, force_terminal=True, color_system=cs, width=300, legacy_windows=legacy), lf))
+    LOWER_SYSTEMS = [ColorSystem.STANDARD, ColorSystem.EIGHT_BIT, ColorSystem.WINDOWS, None]
+
+    def warm(st, always=False):
+        """render this very object for other colour systems first (public Style.render and a whole console.print)"""
+        if st is None or isinstance(st, str) and not st:
+            return
+        for _ in range(rng.randint(1, 2) if (always or rng.random() < 0.7) else 0):
+            try:
+                if isinstance(st, Style) and rng.random() < 0.5:
+                    st.render("w", color_system=rng.choice(LOWER_SYSTEMS), legacy_windows=rng.random() < 0.2)
+                    ctx.note("warm:Style.render")
+                else:
+                    cs, lc, lf = rng.choice(lower)
+                    lf.seek(0)
+                    lf.truncate(0)
+                    lc.print(Text("w", style=st), markup=False, highlight=False, emoji=False)
+                    ctx.note(f"warm:print:{cs}")
+            except BaseException as e:  # a colour that cannot be down-converted: not this property's business
+                ctx.note("warm_error:" + type(e).__name__)
+
+    STRING_STYLES = ["#12c8f3 on #503214", "bold red", "rgb(10,100,200)", "color(45) on color(94)", "italic #ff8800 link http://z",
+                     "on #010203", "underline bright_blue on white", "#ffffff", "dim color(200)"]
+
     def pick():
         return rng.choice(shared) if rng.random() < 0.5 else gen()
 
@@ -416,6 +447,10 @@ def section_roundtrip(ctx, tick):
             for _ in range(rng.randint(1, 5)):
                 segs.append((rng.choice(SEG_TEXTS), pick()))
         tick(segs)
+        for _t, st in segs:
+            warm(st, always=nxt is not None)
+        if nxt is not None:
+            ctx.note("roundtrip_systematic_after_lower_system")
         pieces, err = [], None
         try:
             for text, st in segs:
@@ -458,14 +493,28 @@ def section_roundtrip(ctx, tick):
         # ---- (b) a styled Text printed by a truecolor console, decoded by AnsiDecoder.decode
         if case_no % 2 == 0:
             plain = "".join(rng.choice(["a", "b", " ", "日", "\n", ";", "m", "[", "é", "1"]) for _ in range(rng.randint(0, 12)))
-            base = pick()
+            # styles are objects from the pool or definitions (str): the latter resolve through Style.parse's lru_cache to
+            # one shared object per definition, which other consoles in this process have rendered before
+            base = rng.choice(STRING_STYLES) if rng.random() < 0.2 else pick()
             text = Text(plain, style=base if base is not None else "")
             for _ in range(rng.randint(0, 4)):
-                st = pick()
+                st = rng.choice(STRING_STYLES) if rng.random() < 0.3 else pick()
                 if st is not None:
                     a, b = sorted((rng.randint(0, len(plain)), rng.randint(0, len(plain))))
                     text.stylize(st, a, b)
             tick(text)
+            warm(base)
+            for sp in text.spans:
+                warm(sp.style)
+            if rng.random() < 0.3:  # the whole text on another colour system first
+                cs, lc, lf = rng.choice(lower)
+                lf.seek(0)
+                lf.truncate(0)
+                try:
+                    lc.print(text, markup=False, highlight=False, emoji=False, no_wrap=True, crop=False)
+                    ctx.note(f"warm:text:{cs}")
+                except BaseException as e:
+                    ctx.note("warm_error:" + type(e).__name__)
             out.seek(0)
             out.truncate(0)
             perr = None
@@ -483,7 +532,7 @@ def section_roundtrip(ctx, tick):
                 def at(i):
                     sts = [] if base is None else [base]
                     sts += [sp.style for sp in text.spans if sp.start <= i < sp.end]
-                    sts = [s for s in sts if isinstance(s, Style)]
+                    sts = [Style.parse(s) if isinstance(s, str) else s for s in sts if s != ""]
                     return Style.combine(sts) if sts else None
 
                 want_lines, cur = [], []
@@ -847,7 +896,10 @@ def run(ctx):
         "console.print is the observation boundary of the proxy model: the model says WHAT the proxy asks the console to print "
         "(a decoded Text with markup/emoji/highlight off, or a raw str); what the console then writes is evaluated directly on "
         "the real output (wide console, so C02's wrapping does not interfere)",
-        "Style._ansi (cache of _make_ansi_codes keyed without the colour system) is transparent while every console is truecolor; "
+        "Style._ansi (what _make_ansi_codes remembers from earlier renders, copied by copy / update_link) is not in the encoder model; "
+        "it is EXERCISED, not assumed transparent: the very Style objects (pool objects and Style.parse-cached definitions) are rendered "
+        "through standard / 256 / windows / no-colour consoles and Style.render(color_system=lower) in the same process right before the "
+        "truecolor encode, so a stale cache shows as a model mismatch and a round-trip failure; "
         "link ids are parameters; str.isdigit / int() / sys.get_int_max_str_digits are tables generated from the running Python",
         "round trip hypothesis (noEsc): no ESC and no stripped control code (BS VT FF CR) in the text, no ESC / LF / CR in links; "
         "colours as Color.parse / from_ansi / from_rgb build them (a WINDOWS or out-of-range colour is compared by terminal meaning)",
@@ -916,7 +968,8 @@ MANIFEST = {
     "and stderr.",
     "note": "The proxy model stops at console.print (what is asked of the console); what the console then writes is only evaluated directly on the "
     "real output, on a wide console (wrapping is C02's, tab expansion and CR handling are outside the statement).  Assumed / parameters: "
-    "Style._ansi cache transparent while every console is truecolor (C03 owns F7); link ids; str.isdigit / int / get_int_max_str_digits / "
+    "the Style._ansi cache is not part of the encoder model but is exercised, not assumed transparent (every round-trip case first renders the same Style "
+    "objects / parse-cached definitions through standard, 256, windows and no-colour consoles in the same process, then encodes for truecolor); link ids; str.isdigit / int / get_int_max_str_digits / "
     "str.splitlines of the running Python (generated or validated per run); lru_cache on Style.parse transparent; console.print of a Text with "
     "markup off does not raise.  Round-trip hypotheses: no ESC, BS, VT, FF, CR in text; no ESC / LF / CR in links; no `;` in link ids; colours "
     "canonical (a WINDOWS-type colour reads back as STANDARD: compared by terminal meaning in the harness, outside the theorem); AnsiDecoder.decode "
